@@ -193,6 +193,9 @@ Definition gen___len__ (self : pyindex) : nat :=
 Definition gen_valid (self : pyindex) : bool :=
   (_valid self).
 
+Definition gen_empty (self : pyindex) : bool :=
+  (andb (negb (negb (Nat.eqb (_num_items self) 0))) (andb (negb (nonempty_list (_tags self))) (andb (negb (nonempty_list (_fields self))) (andb (negb (nonempty_list (_measurements self))) (negb (nonempty_list (_timestamps self))))))).
+
 Definition gen_get_measurements (self : pyindex) : list str :=
   (map fst (_measurements self)).
 
